@@ -29,6 +29,27 @@ CHECKS = {
          "the Lean predicate colAllowed judges the implementation's output.",
     ref="DESIGN.md section 8 C05", technique="Lean 4 proof (totality / decision logic of transform) + model/code correspondence on probe frames",
     note=BASE_NOTE + " Frames lacking a fitted column are outside the property's quantifier (correspondence only)."),
+ "C06": dict(
+    text="Executable Lean model of serialization.py + to_json/load_discretizer for values_orders (base-type conversion, the 'numpy.inf' sentinel, "
+         "stringified numeric dict keys, duplicate-key collapse, rebuild through the dict constructor); lemmas: conversion round trip is the identity except on the "
+         "string 'numpy.inf'. On every run the model's round trip of each fitted state is compared with the object rebuilt by load_carver/load_discretizer, and the "
+         "property itself is judged on the implementation: json.dumps succeeds, same transform outcome on training + probe frames, same summary, same JSON again.",
+    ref="DESIGN.md section 8 C06", technique="Lean 4 model of the JSON round trip + correspondence and behavioural comparison of reloaded objects",
+    note=BASE_NOTE + " Python's json float repr round trip and str(number) are trusted and supplied to the model as a table; the full round-trip identity theorem is not proved yet (partial)."),
+ "C07": dict(
+    text="Lean theorems: in the model transform is a function of (state, frame) (no state is returned), each column's transform commutes with any selection of rows "
+         "(subsets, permutations, repetitions: quant_rowwise / qual_rowwise), rejections are row-wise too, lengths are preserved. That the implementation refines this pure "
+         "function is checked on every run: twin objects (fit+transform vs fit_transform), subsets / permutations / three re-indexings / repeated calls compared row by row and "
+         "with the model, fitted state and the caller's X, y, X_dev, y_dev deep-compared before/after.",
+    ref="DESIGN.md section 8 C07", technique="Lean 4 proof (row-wise purity of the transform model) + refinement check on paired runs",
+    note=BASE_NOTE + " Side effects on caller objects and pandas copy/view semantics are runtime facts: observed by the paired runs, not modelled (partial)."),
+ "C17": dict(
+    text="Lean theorems about the model of update_discretizer: an edit only touches the edited feature's order (frame condition), keeps every order a well-formed partition "
+         "(update_WF, and updates_WF by induction over any edit history, so all C04/C05/C13 theorems apply again after every edit), is exactly GroupedList.group for two leaders, "
+         "and refreshes the label table from the edited orders. Correspondence: after every edit of a random valid history the implementation's state equals the model's; judged on "
+         "the implementation: partition of the training rows before/after the edit, labels vs transform (C04 judge), JSON round trip and summary (C06 checks).",
+    ref="DESIGN.md section 8 C17", technique="Lean 4 proof (invariant over edit histories) + model/code correspondence after every edit",
+    note=BASE_NOTE + " 'replace' is generated for qualitative features with fresh names only; moving already-merged missing values is rejected by the code with AssertionError and not generated."),
 }
 NOT_YET = "check not built yet (construction in progress, see DESIGN.md section 13); will be claimed once its model, theorems and correspondence exist"
 
